@@ -157,14 +157,18 @@ def classifyTail (env : Env) (st : PState) (ev : Bytes) : Decoded :=
   else if typ = Facts.eTableMapEvent then
     ofRes (tableID st.format ev) fun id =>
     ofRes (tableMap st.format ev) fun tm =>
-    match findTable st.tables id with
-    | some tc => .tableMap id { tc with tableMap := tm } true
-    | none =>
+    let fresh : Decoded :=
       match env.mapper tm.database tm.name with
       | none => .decodeErr
       | some info =>
         if info.columns.length != tm.canBeNull.count then .decodeErr
         else .tableMap id ⟨tm, info⟩ false
+    match findTable st.tables id with
+    | some tc =>
+      if tc.tableMap.database = tm.database ∧ tc.tableMap.name = tm.name then
+        .tableMap id { tc with tableMap := tm } true
+      else fresh
+    | none => fresh
   else if typ = Facts.eWriteRowsEventV1 ∨ typ = Facts.eWriteRowsEventV2 ∨ typ = Facts.eUpdateRowsEventV1 ∨
           typ = Facts.eUpdateRowsEventV2 ∨ typ = Facts.eDeleteRowsEventV1 ∨ typ = Facts.eDeleteRowsEventV2 then
     let kind : RowKind :=
@@ -232,13 +236,24 @@ theorem tail_reloc (fnext N : Nat) (env : Env) (st : PState) (ev ev' : Bytes) (h
   by_cases h4 : typ = Facts.eTableMapEvent
   · simp only [if_neg h1, if_neg h2, if_neg h3, if_pos h4]
     congr 1; funext id; congr 1; funext tm
-    cases findTable st.tables id with
-    | some tc => rfl
-    | none =>
-      simp only []
+    have hfresh : ∀ fresh : Decoded,
+        (fresh = match env.mapper tm.database tm.name with
+          | none => Decoded.decodeErr
+          | some info =>
+            if info.columns.length != tm.canBeNull.count then Decoded.decodeErr
+            else Decoded.tableMap id ⟨tm, info⟩ false) → relocD fnext N fresh = fresh := by
+      intro fresh hfr
+      subst hfr
       cases env.mapper tm.database tm.name with
       | none => rfl
       | some info => simp only []; split <;> rfl
+    cases findTable st.tables id with
+    | some tc =>
+      simp only []
+      split
+      · rfl
+      · exact (hfresh _ rfl).symm
+    | none => exact (hfresh _ rfl).symm
   simp only [if_neg h1, if_neg h2, if_neg h3, if_neg h4]
   split
   · congr 1; funext id
@@ -459,8 +474,11 @@ theorem stepD_reloc (fnext N : Nat) (st : PState) (d : Decoded) (hrot : ∀ f o,
     · exact commit_reloc fnext N _ _ next ts
     · rfl
   | tableMap id tc known =>
-    simp only [stepD, relocD]
-    split <;> rfl
+    have htab : (relocSt fnext N st).tables = st.tables := rfl
+    simp only [stepD, relocD, htab]
+    split
+    · rfl
+    · split <;> rfl
   | _ => rfl
 
 
@@ -672,8 +690,11 @@ theorem stepD_ren (g f0 : Bytes) (st : PState) (d : Decoded) (hrot : ∀ f o, d 
     · exact commit_ren g f0 _ _ next ts
     · rfl
   | tableMap id tc known =>
-    simp only [stepD]
-    split <;> rfl
+    have htab : (renSt g f0 st).tables = st.tables := rfl
+    simp only [stepD, htab]
+    split
+    · rfl
+    · split <;> rfl
   | _ => rfl
 
 /-- MODEL level: the file name the parser was started with is only ever copied into labels; as long as no ROTATE names
